@@ -12,7 +12,7 @@ import ast
 import re
 
 from ..flow import Slicer
-from ..model import AnalysisError, call_name, calls_in, dotted, walk_no_nested
+from ..model import AnalysisError, call_name, calls_in, dotted, kwarg, walk_no_nested
 from ..registry import rule
 
 NAMING = "ffcx.naming"
@@ -399,7 +399,7 @@ def digest_width(repo, res):
 
 @rule(
     "RULE-SCOPED-NAMES",
-    ["C19", "C11"],
+    ["C19", "C11", "C10"],
     "identifier families that are instantiated once per quadrature rule at kernel scope carry the rule's "
     "id: the piecewise (sp_) and varying (sv_) temporaries of the integral generator, the weights table "
     "and the element-table names; temporaries cached across rules (fw) are keyed by the rule",
@@ -443,6 +443,30 @@ def rule_scoped_names(repo, res):
     res.ob(key)
     if not re.search(rf"_Q\{{{f.params[0]}\.id\(\)\}}", ast.unparse(f.node)):
         res.fail(key, "element table names do not end in the quadrature rule id: tables of different rules collide", et.line(f.node))
+    # every table reference created while building the tables of ONE rule is named with that rule's id
+    b = et.func("build_optimized_tables")
+    res.functions.add(b.key)
+    rp = "quadrature_rule"
+    if rp not in b.params:
+        raise AnalysisError("build_optimized_tables has no quadrature_rule parameter")
+    sl = Slicer(b.node)
+    ctors = [c for c in calls_in(b.node) if (call_name(c) or "") == "UniqueTableReferenceT"]
+    if len(ctors) < 2:
+        raise AnalysisError("build_optimized_tables: UniqueTableReferenceT constructions not found")
+    for n_, c in enumerate(ctors):
+        key = f"{b.key}:table-name-has-rule-id:{n_}"
+        res.ob(key)
+        nm = kwarg(c, "name") if kwarg(c, "name") is not None else (c.args[0] if c.args else None)
+        if nm is None:
+            res.fail(key, "table reference without a name", et.line(c))
+            continue
+        t = sl.text(nm)
+        scoped = re.search(rf"\{{{rp}\.id\(\)\}}", t) or re.search(rf"generate_psi_table_name\(\s*{rp}\b", t)
+        if not scoped:
+            res.fail(key, f"table `{ast.unparse(nm)}` is created per quadrature rule (its values are tabulated at this rule's points) but its name does not "
+                     "contain the rule id and the counter restarts for every rule: with sum_factorization=True and two rules in one integral "
+                     "(u*v*dx(degree=2) + inner(grad(u), grad(v))*dx(degree=4), Q2 tensor-product element) both rules' factor tables are called "
+                     "FE_TF0.. and the later one replaces the earlier one", et.line(c), props=("C10", "C19", "C11"))
     # name components all present
     key = f"{f.key}:components"
     res.ob(key)
